@@ -4,6 +4,9 @@ go 1.22
 
 require github.com/jech/storrent v0.0.0
 
-require golang.org/x/sys v0.24.0 // indirect
+require (
+	github.com/zeebo/bencode v1.0.0 // indirect
+	golang.org/x/sys v0.24.0 // indirect
+)
 
 replace github.com/jech/storrent => /repo
